@@ -826,6 +826,10 @@ pub(crate) fn validate_headers(image: &[u8]) -> Result<u32> {
 	if size_of_sections + start_of_sections > image.len() {
 		return Err(Error::Bounds);
 	}
+	// The section headers are referenced in place, image and e_lfanew are already dword aligned
+	if !start_of_sections.aligned_to(mem::align_of::<IMAGE_SECTION_HEADER>()) {
+		return Err(Error::Misaligned);
+	}
 	Ok(nt.OptionalHeader.SizeOfImage)
 }
 
